@@ -28,7 +28,7 @@ DRIVER = "c03_ecdsa.c"
 RC_SETUP = 0x7fff0001
 
 OP_SIGN, OP_VERIFY, OP_VERIFY_PRIV, OP_VERIFY_BN, OP_KEYGEN, OP_RECOVER, OP_DH, OP_EXPORT, OP_IMPORT, OP_INFO = range(1, 11)
-OP_SIGN_BN, OP_KG_BN, OP_DH_BN = 11, 12, 13
+OP_SIGN_BN, OP_KG_BN, OP_DH_BN, OP_IMPORT_DIRTY = 11, 12, 13, 14
 ORDERS = (("be", "big", 0), ("le", "little", 1))
 
 # ---------------------------------------------------------------------------
@@ -170,8 +170,8 @@ def case_export(ci, le, P, compress, has_y, cap_x, cap_y, pat=0x5a, arm=0):
     return _hdr(OP_EXPORT, ci, le, pat, arm).blob(_be(x)).blob(_be(y)).u8(inf).u8(compress).u8(has_y).u32(cap_x).u32(cap_y).done()
 
 
-def case_import(ci, le, qx, qy=None, qsz=None, pat=0x5a, arm=0):
-    return _hdr(OP_IMPORT, ci, le, pat, arm).blob(qx).u8(0 if qy is None else 1).blob(qy or b"") \
+def case_import(ci, le, qx, qy=None, qsz=None, pat=0x5a, arm=0, dirty=False):
+    return _hdr(OP_IMPORT_DIRTY if dirty else OP_IMPORT, ci, le, pat, arm).blob(qx).u8(0 if qy is None else 1).blob(qy or b"") \
         .u32(len(qx) if qsz is None else qsz).done()
 
 
@@ -1106,8 +1106,14 @@ def quick_subset(curves, prop):
     one(["secp112r2", "secp128r2"])
     one([n for n in by if n.startswith("brainpool") and by[n].bits < 384])
     one(["secp160k1", "secp160r1", "secp160r2", "secp224k1"])
-    one([n for n in by if by[n].algo == ecdsa.ALGO_GOST and by[n].gx in (0, 1)])
-    one([n for n in by if by[n].algo == ecdsa.ALGO_GOST and by[n].bits == 256])
+    if prop == "C09":
+        # C09: always a curve whose generator has x = 0 (x = 0 is a legitimate DH secret there) and
+        # id-GostR3410-2001-ParamSet-cc, the one table entry whose cofactor (1) is not the true one (2)
+        one([n for n in by if by[n].algo == ecdsa.ALGO_GOST and by[n].gx == 0])
+        one(["id-GostR3410-2001-ParamSet-cc"])
+    else:
+        one([n for n in by if by[n].algo == ecdsa.ALGO_GOST and by[n].gx in (0, 1)])
+        one([n for n in by if by[n].algo == ecdsa.ALGO_GOST and by[n].bits == 256])
     one([n for n in by if by[n].algo == ecdsa.ALGO_GOST and by[n].bits > 256])
     rest = [n for n in by if n not in pick and by[n].bits < 384]
     rng.shuffle(rest)
